@@ -329,7 +329,10 @@ fn mutate(rng: &mut Rng, s: &SchemaInfo, valid: &Value, label: &str, o: &DocOpts
 
 fn stem(e: &str) -> String {
   let s: String = e.chars().map(|c| if c.is_ascii_alphanumeric() { c.to_ascii_lowercase() } else { '-' }).collect();
-  let parts: Vec<&str> = s.split('-').filter(|p| !p.is_empty() && !p.chars().all(|c| c.is_ascii_digit())).take(5).collect();
+  // generated field names are not part of the root cause
+  const NAMES: &[&str] = &["body", "title", "note", "tag", "cat", "n", "x", "c", "d", "who", "k", "s", "t", "sub", "w", "z", "req", "pk", "id"];
+  let parts: Vec<&str> =
+    s.split('-').filter(|p| !p.is_empty() && !p.chars().all(|c| c.is_ascii_digit()) && !NAMES.contains(p)).take(5).collect();
   parts.join("-")
 }
 
